@@ -48,9 +48,12 @@ def check(ctx):
 
 
 def _r1(ctx, pkg):
-    hf = pkg.method("Reaction", "__hash__")
-    ef = pkg.method("Reaction", "__eq__")
-    rp = pkg.method("Reaction", "rpeq")
+    hf0, ef0, rp0 = (pkg.method("Reaction", m) for m in ("__hash__", "__eq__", "rpeq"))
+    # read with the small helpers they were split into put back (methods / staticmethods of the class, functions of the module): a
+    # key or a comparison moved into `_multiset(species)` / `_same_species(a, b)` is the same key, the same comparison
+    hf = pkg.expanded("Reaction", "__hash__", keep=("rpeq",))
+    ef = pkg.expanded("Reaction", "__eq__", keep=("rpeq",))
+    rp = pkg.expanded("Reaction", "rpeq")
     ctx.saw(RF, "Reaction.__hash__")
 
     def res(name):
@@ -64,7 +67,7 @@ def _r1(ctx, pkg):
             for c in ast.walk(x):
                 if isinstance(c, ast.Call) and isinstance(c.func, ast.Attribute) and isinstance(c.func.value, ast.Name) and c.func.value.id == "self":
                     h = res(c.func.attr)
-                    if h is not None and not any(h is y for y in out) and h not in (hf, ef, rp):
+                    if h is not None and not any(h is y for y in out) and h not in (hf, ef, rp, hf0, ef0, rp0):
                         out.append(h)
                         todo.append(h)
         return out
@@ -598,50 +601,98 @@ def _r3(ctx, pkg):
     else:
         ctx.unrec("R3", "check_list", W, f"mode dispatch not recognised: {show(chk)[:100]}")
     # the formatted names are in a total order (by name)
-    ff = pkg.method("Reaction", "__format__")
+    _format_order(ctx, pkg)
+
+
+def _names_order(v, attr):
+    """How the list of names `v` printed for self.<attr> is ordered: True = in name order (sorted() of the species -- Species.__lt__,
+    R7 -- or of the names, or an explicit key that is the name); False = understood and NOT a total order on the names (input order, or
+    an explicit key that is another attribute); None = not a list of the names of self.<attr> this rule reads."""
+    SIDE = ("attr", SELF, attr)
+
+    def key_is_name(k):
+        """True: the key is the name; False: another attribute of the species; None: not read"""
+        if k[0] == "lambda" and len(k[1]) == 1 and k[2][0] == "attr" and k[2][1] == k[1][0]:
+            return k[2][2] == "name"
+        if k[0] == "call" and k[1] in (("global", "attrgetter"), ("attr", ("global", "operator"), "attrgetter")) and len(k[2]) == 1 and not k[3] \
+                and k[2][0][0] == "const" and isinstance(k[2][0][1], str):
+            return k[2][0][1] == "name"
+        return None
+
+    def ordered(base):
+        """the species of the side, ordered: True / False / None as above"""
+        if base == SIDE:
+            return False                                   # input order
+        if base[0] == "copy" and base[1] == SIDE:
+            return False
+        if base[0] == "call" and base[1] == ("global", "sorted") and len(base[2]) == 1 and base[2][0] in (SIDE, ("copy", SIDE)):
+            kw = dict(base[3])
+            if not kw:
+                return True
+            if set(kw) == {"key"}:
+                return key_is_name(kw["key"])
+        return None
+    m = as_map(v)
+    if m and m[1] == ("attr", m[0], "name") and not m[3]:
+        return ordered(m[2])
+    if v[0] == "call" and v[1] == ("global", "sorted") and len(v[2]) == 1 and not v[3]:
+        m = as_map(v[2][0])
+        if m and m[1] == ("attr", m[0], "name") and not m[3] and m[2] == SIDE:
+            return True                                    # the names themselves, sorted
+    return None
+
+
+def _format_order(ctx, pkg):
+    ff0 = pkg.method("Reaction", "__format__")
     ctx.saw(RF, "Reaction.__format__")
-    ffl = Flow(ff, RF)
+    # with the helpers it was split into put back (a `_sorted_names(species)` method / staticmethod / module function, properties of
+    # the class that return the lists): the same statements wherever they were moved
+    ff = pkg.expanded("Reaction", "__format__")
+    res = lambda name: pkg.resolve("Reaction", name)[1]
+    ffl = Flow(ff, RF, resolver=res, func_resolver=lambda name: pkg.functions.get((RF, name)))
+    ci = pkg.cls("Reaction")
+    props = {}
+    for c in pkg.mro("Reaction"):
+        cc = pkg.classes.get(c)
+        for nm, fn in (cc.methods.items() if cc else ()):
+            if nm not in props and isinstance(fn, ast.FunctionDef) and any(ast.unparse(d) in ("property", "functools.cached_property", "cached_property") for d in fn.decorator_list):
+                props[nm] = fn
+
+    def through_props(v, depth=0):
+        """`self.<property>` replaced by the value the property returns (one return, read by Flow)"""
+        hit = {x for x in walk(v) if isinstance(x, tuple) and len(x) == 3 and x[0] == "attr" and x[1] == SELF and x[2] in props}
+        if not hit or depth > 2:
+            return v
+        m = {}
+        for x in hit:
+            pf = Flow(props[x[2]], RF, resolver=res, func_resolver=lambda name: pkg.functions.get((RF, name)))
+            rets = [simp(f.value) for f in pf.facts if f.kind == "return"]
+            if len(rets) == 1:
+                m[x] = through_props(rets[0], depth + 1)
+        return simp(subst(v, m)) if m else v
     for nm, attr in (("rnames", "reactants"), ("pnames", "products")):
-        # by role: the local whose first value is built from self.<attr>
-        a = next((lst for lst in ffl.assigns.values() if lst and any(x == ("attr", SELF, attr) for x in walk(simp(lst[0][0])))), [])
-        ok = False
-        found = ""
-        if a:
-            v = simp(a[0][0])
-            found = show(v)[:100]
-            m = as_map(v)
-            if m:
-                bv, body, base, ifs = m
-                ok = body == ("attr", bv, "name") and not ifs and base == ("call", ("global", "sorted"), (("attr", SELF, attr),), ())
-            if not ok and v[0] == "call" and v[1] == ("global", "sorted") and not v[3]:
-                m = as_map(v[2][0])
-                ok = bool(m) and m[1] == ("attr", m[0], "name") and m[2] == ("attr", SELF, attr)
-            if not ok:
-                # sorted(.., key=lambda s: s.name) is the same total order, spelled out
-                def by_name(c):
-                    if c[0] != "call" or c[1] != ("global", "sorted") or len(c[2]) != 1 or c[2][0] != ("attr", SELF, attr):
-                        return False
-                    kw = dict(c[3])
-                    k = kw.get("key")
-                    return set(kw) <= {"key"} and k is not None and k[0] == "lambda" and len(k[1]) == 1 and k[2] == ("attr", k[1][0], "name")
-                m = as_map(v)
-                ok = bool(m) and m[1] == ("attr", m[0], "name") and not m[3] and by_name(m[2])
-        # understood and wrong: the names listed in input order (no sort at all), or sorted by an explicit key other than the name;
-        # names produced by a helper / another construction are not read
-        understood = ok
-        if a and not ok:
-            v = simp(a[0][0])
-            m = as_map(v)
-            nosort = bool(m) and m[2] == ("attr", SELF, attr) and m[1] == ("attr", m[0], "name")
-            keyed = any(isinstance(x, tuple) and len(x) == 4 and x[0] == "call" and x[1] == ("global", "sorted") and any(k == "key" for k, _ in x[3]) for x in walk(v))
-            understood = nosort or keyed
-        if not understood:
-            ctx.unrec("R3", f"__format__:{nm} order", (RF, a[0][3] if a else ff.lineno), f"how the printed {attr} are ordered is not read: {found or 'no local built from self.' + attr}")
+        # by role: the locals whose FIRST value is a list of names of self.<attr> (intermediate locals -- the sorted species, the side
+        # itself -- are substituted into it by Flow); every such list must be in name order
+        cands = []
+        for lst in ffl.assigns.values():
+            if not lst:
+                continue
+            v = through_props(simp(lst[0][0]))
+            if any(x == ("attr", SELF, attr) for x in walk(v)):
+                cands.append((v, lst[0][3]))
+        verdicts = [(_names_order(v, attr), v, ln) for v, ln in cands]
+        read = [x for x in verdicts if x[0] is not None]
+        K = f"__format__:{nm} order"
+        if not read:
+            found = show(cands[0][0])[:100] if cands else "no local built from self." + attr
+            ctx.unrec("R3", K, (RF, cands[0][1] if cands else ff0.lineno), f"how the printed {attr} are ordered is not read: {found}")
             continue
-        ctx.check(ok, "R3", f"__format__:{nm} order", (RF, a[0][3] if a else ff.lineno),
+        ok = all(x[0] for x in read)
+        _, v, ln = next((x for x in read if not x[0]), read[0])
+        ctx.check(ok, "R3", K, (RF, ln),
                   f"formatted {attr} are listed in name order (a total order on the printed tokens, so permutations format identically)" if ok else
                   f"the {attr} are not sorted by the printed name itself: two species that tie under the sort key keep their input order and permuted duplicates format differently",
-                  expected=f"[x.name for x in sorted(self.{attr})]", found=found)
+                  expected=f"[x.name for x in sorted(self.{attr})]", found=show(v)[:100])
 
 
 def _flat_cases(v, conds=()):
